@@ -1654,9 +1654,99 @@ def _c09_tokio_harnesses(prop):
     return out
 
 
+def _c08_harnesses(prop, tier):
+    """C08 (native only): under the thread-spawning macros a step with n > 1 active branches runs them on n distinct,
+    simultaneously alive threads named <caller>_join_<branch index>; a single active branch runs on the caller"""
+    out = []
+    profs = [(1, 1), (2, 2), (1, 2), (2, 1), (1, 2, 2), (2, 1, 3), (3, 1, 2), (1, 1, 1, 1)] + ([] if tier == "quick" else [(3, 3, 3), (2, 3, 1, 3), (1, 2, 3, 4), (2, 2, 2, 2, 2)])
+    for mac in ("join_spawn", "try_join_spawn", "spawn", "try_spawn"):
+        for ds in profs:
+            for ctx in ("main", "named", "unnamed"):
+                if tier == "quick" and mac in ("spawn", "try_spawn") and (ctx != "named" or len(ds) > 2):
+                    continue
+                n = len(ds)
+                act = lambda s: sum(1 for d in ds if d > s)
+                brs = []
+                exp = []
+                for i in range(n):
+                    t = "Some(%du8) |> |x: u8| { probe(%d, 0, %d); x }" % (i, i, act(0))
+                    exp.append("(%d, 0, %d)" % (i, act(0)))
+                    for s in range(1, ds[i]):
+                        t += " ~|> |x: u8| { probe(%d, %d, %d); x.wrapping_add(1) }" % (i, s, act(s))
+                        exp.append("(%d, %d, %d)" % (i, s, act(s)))
+                    brs.append(t)
+                prog = "%s! { %s }" % (mac, ", ".join(brs))
+                vals = tup("Some(%du8)" % (i + ds[i] - 1) for i in range(n)) if not mac.startswith("try") else "Some(%s)" % tup("%du8" % (i + ds[i] - 1) for i in range(n))
+                body = "        let me = std::thread::current(); let cid = me.id(); let cname = me.name().map(|s| s.to_string());\n"
+                body += "        let r = %s;\n" % prog
+                body += "        if r != %s { return Err(\"C08: wrong result\".to_string()); }\n" % vals
+                body += "        check_probes(cid, cname, &[%s])\n" % ", ".join(exp)
+                b = "    probe_reset();\n    let run = move || -> Result<(), String> {\n%s    };\n" % body
+                if ctx == "main":
+                    b += "    let res = with_watchdog(run);\n"
+                elif ctx == "named":
+                    b += "    let res = with_watchdog(move || std::thread::Builder::new().name(\"caller\".into()).spawn(run).unwrap().join().unwrap());\n"
+                else:
+                    b += "    let res = with_watchdog(move || std::thread::spawn(run).join().unwrap());\n"
+                b += "    assert!(res.is_some(), \"C08: the macro did not return within 60 s\");\n"
+                b += "    if let Some(Err(m)) = res { panic!(\"{}\", m); }\n"
+                hn = "%s_threads_%s_%s_%s" % (prop.lower(), mac, pname(ds), ctx)
+                out.append(Harness(hn, harness_fn(hn, b), prog, note="profile %s, caller thread %s" % (ds, ctx)))
+    return out
+
+
+def _c18_harnesses(prop, tier):
+    """C18 (native only): a panic injected at (branch, step) reaches the caller, nothing of a later step runs, the
+    caller is not left blocked - for the sync, thread-spawning, async and tokio-spawning kinds"""
+    out = []
+    profs = [(1,), (2,), (1, 2), (2, 1), (2, 2), (1, 2, 3), (3, 1, 2)] + ([] if tier == "quick" else [(3, 3), (2, 3, 1), (1, 1, 1), (2, 2, 2, 2)])
+    kinds = ["join", "try_join", "join_spawn", "try_join_spawn", "join_async", "try_join_async", "join_async_spawn", "try_join_async_spawn"]
+    for mac in kinds:
+        is_async = "async" in mac
+        is_try = mac.startswith("try")
+        for ds in profs:
+            n = len(ds)
+            for bi in range(n):
+                for si in range(ds[bi]):
+                    if tier == "quick" and (bi + si + len(ds)) % 2 == 1 and n > 1:
+                        continue
+                    brs = []
+                    for i in range(n):
+                        def cb(i, s):
+                            inj = "panic!(\"INJECTED\")" if (i, s) == (bi, si) else "{}"
+                            return "{ ev(code(K_CALL, %d, %d, 0)); %s; x }" % (i, s, inj)
+                        if is_async:
+                            t = "async move { let x = %du8; %s; %s }" % (i, "ev(code(K_CALL, %d, 0, 0)); %s" % (i, "panic!(\"INJECTED\")" if (i, 0) == (bi, si) else "{}"),
+                                                                      "Ok::<u8, u8>(x)" if is_try else "x")
+                            for s in range(1, ds[i]):
+                                if is_try:
+                                    t += " ~=> move |x: u8| async move { %s; Ok::<u8, u8>(x) }" % ("ev(code(K_CALL, %d, %d, 0)); %s" % (i, s, "panic!(\"INJECTED\")" if (i, s) == (bi, si) else "{}"))
+                                else:
+                                    t += " ~|> move |x: u8| %s" % cb(i, s)
+                        else:
+                            t = ("Ok::<u8, u8>(%du8)" % i if is_try else "Some(%du8)" % i) + " |> |x: u8| %s" % cb(i, 0)
+                            for s in range(1, ds[i]):
+                                t += " ~|> |x: u8| %s" % cb(i, s)
+                        brs.append(t)
+                    prog = "%s! { %s }" % (mac, ", ".join(brs))
+                    run = ("block_on_tokio(async move { let _ = %s.await; })" % prog) if is_async else ("{ let _ = %s; }" % prog)
+                    b = "    let res = with_watchdog(move || std::panic::catch_unwind(std::panic::AssertUnwindSafe(|| %s)).is_err());\n" % run
+                    b += "    assert!(res.is_some(), \"C18: the caller was left blocked after a panic in a branch\");\n"
+                    b += "    assert!(res == Some(true), \"C18: the panic of a user expression did not reach the caller\");\n"
+                    b += "    let nev = tlen().min(TMAX);\n"
+                    b += "    for k in 0..nev { assert!(step_of(tr(k)) <= %d, \"C18: an expression of a later step ran after the panic\"); }\n" % si
+                    hn = "%s_panic_%s_%s_b%ds%d" % (prop.lower(), mac, pname(ds), bi, si)
+                    out.append(Harness(hn, harness_fn(hn, b), prog, note="panic injected at branch %d step %d, profile %s" % (bi, si, ds)))
+    return out
+
+
 def native_families(pid, tier):
     out = []
     quick = tier == "quick"
+    if pid == "C08":
+        out += _c08_harnesses(pid, tier)
+    if pid == "C18":
+        out += _c18_harnesses(pid, tier)
     if pid == "C09":
         out += _c09_tokio_harnesses(pid)
     if pid == "C04":
